@@ -12,6 +12,7 @@ import (
 func init() {
 	core.Register(&core.Check{
 		ID:        "C01",
+		Also:      []string{"C01T"}, // threaded lane under the race detector (h/checks/c01t)
 		Level:     "exploration",
 		Technique: "deterministic simulation of N real ConsensusState objects under a seeded adversarial scheduler with Byzantine validators (<1/3 power, real keys); online trace oracle over emission/delivery/commit logs",
 		Rule: "case = one schedule: validator powers, Byzantine subset (<1/3 power), loss/eagerness/duplication rates and every scheduler decision drawn from the case seed; " +
